@@ -40,7 +40,8 @@ def case_strategy(draw, variant):
     it = draw(st.lists(st.integers(-5, 5), min_size=n, max_size=n))
     bo = draw(st.lists(st.booleans(), min_size=n, max_size=n))
     dt = draw(st.lists(st.one_of(st.none(), st.integers(0, 1000)), min_size=n, max_size=n))
-    by = draw(st.sampled_from(["k1", "k2", ["k1", "k2"], "array", "series", "level", "level+col", "k1+array"]))
+    by = draw(st.sampled_from(["k1", "k2", ["k1", "k2"], "array", "series", "series_named_like_column", "k1+series_named_like_column",
+                               "level", "level+col", "k1+array"]))
     index = draw(st.sampled_from(["default", "shuffled", "dup", "str", "multi"]))
     if by in ("level", "level+col"):
         # level names: strings, or integers that are valid positions but do not name their own position (pandas resolves names first)
@@ -81,6 +82,13 @@ def resolve_by(case, df):
         return {"by": ext}, [ext], []
     if by == "series":
         return {"by": pd.Series(ext, index=df.index, name="ext")}, [pd.Series(ext, index=df.index, name="ext")], []
+    if by == "series_named_like_column":
+        # a derived key that merely carries the NAME of a value column: that column is still a value column (pandas semantics)
+        s_ = pd.Series(ext, index=df.index, name="it")
+        return {"by": s_}, [s_], []
+    if by == "k1+series_named_like_column":
+        s_ = pd.Series(ext, index=df.index, name="fl")
+        return {"by": ["k1", s_]}, [df["k1"], s_], ["k1"]
     lv = "lv" if case["index"] != "multi_intnames" else 1  # the level NAMED 1 is the first level (positions are 0, 1)
     first_level = df.index.get_level_values(df.index.names[0]) if isinstance(df.index, pd.MultiIndex) else None
     if by == "level":
